@@ -278,9 +278,14 @@ Definition merge_ok (x : sx) (rest : list sx) : bool :=
 Definition fold_ok (x : sx) (rest : list sx) (n : nat) : bool :=
   Nat.leb 1 n && Nat.leb (S n) 64 && Nat.leb n (length rest) && forallb (sx_eqb x) (firstn n rest).
 
-(* a class whose items the walker leaves alone *)
-Definition class_unchanged (e : sx) : bool :=
-  match fst (walk_a true e) with [e'] => sx_eqb e e' | _ => false end.
+(* class items: a small range is only enumerated between ASCII bounds (single-byte characters of a
+   well-formed UTF-8 pattern always are) *)
+Definition item_ok (it : sx) : bool :=
+  match it with
+  | X OpCharRange _ (X OpChar _ _ :: X OpChar (String h EmptyString) _ :: _) => (N_of_ascii h <? 128)%N
+  | _ => true
+  end.
+Definition items_ok (e : sx) : bool := forallb item_ok (sx_args e).
 
 Fixpoint guards (e : sx) {struct e} : bool :=
   match e with
@@ -314,12 +319,12 @@ Fixpoint guards (e : sx) {struct e} : bool :=
           | Some _ => existsb (fun p => sx_eqb e (fst p)) class_table_sound_entries
           | None => true
           end
-      | None => class_unchanged e
+      | None => items_ok e
       end
   | X OpNegCharClass v _ =>
       match simplifyNegCharClass e with
       | Some _ => existsb (fun p => sx_eqb e (fst p)) neg_class_table_sound_entries
-      | None => class_unchanged e
+      | None => items_ok e
       end
   | _ => true
   end.
@@ -641,6 +646,124 @@ Lemma walk_a_group v x :
   if atom_op (sx_op x) then fst (walk_a true x) else [X OpGroup v [seq_node (fst (walk_a true x))]].
 Proof. cbn [walk_a]. destruct (sx_op x), (walk_a true x); reflexivity. Qed.
 
+
+(* ---------- class items ---------- *)
+Fixpoint wlT (l : list sx) : aout := match l with [] => ([], O) | x :: r => a_app (walk_a true x) (wlT r) end.
+
+Lemma walk_a_class v items : simplifyCharClass true (X OpCharClass v items) = None ->
+  fst (walk_a true (X OpCharClass v items)) = [X OpCharClass v (fst (wlT items))].
+Proof. intros H. cbn [walk_a]. rewrite H. reflexivity. Qed.
+Lemma walk_a_negclass v items : simplifyNegCharClass (X OpNegCharClass v items) = None ->
+  fst (walk_a true (X OpNegCharClass v items)) = [X OpNegCharClass v (fst (wlT items))].
+Proof. intros H. cbn [walk_a]. rewrite H. reflexivity. Qed.
+
+Lemma class_items_app a b :
+  class_items (a ++ b) = match class_items a, class_items b with Some x, Some y => Some (x ++ y)%list | _, _ => None end.
+Proof.
+  induction a as [|x a IH]; simpl.
+  - destruct (class_items b); reflexivity.
+  - destruct (class_item x); [|reflexivity]. rewrite IH. destruct (class_items a), (class_items b); reflexivity.
+Qed.
+
+Lemma rune_of_byte a : rune_of (String a EmptyString) = Some (N_of_ascii a).
+Proof.
+  unfold rune_of, decode_rune, byte_of.
+  destruct (N_of_ascii a <? 128)%N; [reflexivity|].
+  destruct (N_of_ascii a <? 224)%N; [reflexivity|].
+  destruct (N_of_ascii a <? 240)%N; reflexivity.
+Qed.
+
+Lemma removable_class_item :
+  Forall (fun v => forall a, class_item (X OpEscapeChar v a) = class_item (mk_char (drop 1 v))) removable_escapes.
+Proof.
+  unfold removable_escapes. repeat (apply Forall_cons; [intros a; reflexivity|]). apply Forall_nil.
+Qed.
+
+Lemma item_sound it ci : item_ok it = true -> class_item it = Some ci ->
+  exists cis, class_items (fst (walk_a true it)) = Some cis /\
+              forall fold r, existsb (in_item fold r) cis = in_item fold r ci.
+Proof.
+  intros Hok Hci.
+  assert (Hsame : fst (walk_a true it) = [it] ->
+          exists cis, class_items (fst (walk_a true it)) = Some cis /\ forall fold r, existsb (in_item fold r) cis = in_item fold r ci).
+  { intros ->. exists [ci]. split; [cbn [class_items]; rewrite Hci; reflexivity|]. intros fold r. cbn [existsb]. apply orb_false_r. }
+  destruct it as [o v args]. destruct o; try (simpl in Hci; discriminate Hci); try (apply Hsame; reflexivity).
+  - (* EscapeChar *)
+    destruct (mem_s v removable_escapes) eqn:Em; [|apply Hsame; cbn [walk_a]; rewrite Em; reflexivity].
+    cbn [walk_a]. rewrite Em. apply mem_In in Em. pose proof removable_class_item as HF. rewrite Forall_forall in HF.
+    rewrite (HF v Em args) in Hci. exists [ci]. split; [cbn [fst class_items]; rewrite Hci; reflexivity|].
+    intros fold r. cbn [existsb]. apply orb_false_r.
+  - (* CharRange *)
+    destruct (simplifyCharRange true (X OpCharRange v args)) as [s|] eqn:Es;
+      [|apply Hsame; cbn [walk_a]; rewrite Es; reflexivity].
+    cbn [walk_a]. rewrite Es. unfold simplifyCharRange in Es. cbn [sx_args] in Es.
+    destruct args as [|[lo_o lo la] args1]; [discriminate Es|].
+    destruct lo_o; try discriminate Es.
+    destruct args1 as [|[hi_o hi ha] rest]; [discriminate Es|].
+    destruct hi_o; try discriminate Es.
+    destruct lo as [|l [|? ?]]; try discriminate Es. destruct hi as [|h [|? ?]]; try discriminate Es.
+    cbn [item_ok] in Hok. apply N.ltb_lt in Hok.
+    (* the item itself *)
+    destruct rest as [|? ?]; [|cbn [class_item] in Hci; discriminate Hci].
+    cbn [class_item sx_op sx_val] in Hci. unfold escape_rune in Hci. rewrite !rune_of_byte in Hci.
+    set (lb := N_of_ascii l) in *. set (hb := N_of_ascii h) in *.
+    destruct (N.leb_spec lb hb) as [Hle|]; [|discriminate Hci]. inversion Hci; subst ci. clear Hci.
+    assert (Hd : ((hb + 256 - lb) mod 256 = hb - lb)%N).
+    { replace (hb + 256 - lb)%N with (hb - lb + 1 * 256)%N by lia. rewrite N.mod_add by lia. apply N.mod_small. lia. }
+    rewrite Hd in Es.
+    destruct ((lb =? 45)%N || (hb =? 45)%N || ((hb - lb =? 2)%N && ((lb + 1) mod 256 =? 45)%N)); [discriminate Es|].
+    cbn [andb] in Es.
+    destruct (N.eqb_spec (hb - lb) 0) as [E0|_].
+    + inversion Es; subst s. cbn [fst chars_of_bytes class_items]. unfold mk_char, class_item, escape_rune.
+      rewrite rune_of_byte. fold lb. cbn [option_map]. eexists. split; [reflexivity|].
+      intros fold r. cbn [existsb]. rewrite orb_false_r. replace hb with lb by lia. reflexivity.
+    + destruct (N.eqb_spec (hb - lb) 1) as [E1|_].
+      * inversion Es; subst s. cbn [fst append chars_of_bytes class_items]. unfold mk_char, class_item, escape_rune.
+        rewrite !rune_of_byte. fold lb hb. cbn [option_map]. eexists. split; [reflexivity|].
+        intros fold r. cbn [existsb]. rewrite orb_false_r. replace hb with (lb + 1)%N by lia.
+        symmetry. apply in_item_range2.
+      * destruct (N.eqb_spec (hb - lb) 2) as [E2|_]; [|discriminate Es].
+        inversion Es; subst s. clear Es.
+        assert (Hm : ((lb + 1) mod 256 = lb + 1)%N) by (apply N.mod_small; lia).
+        rewrite Hm. unfold string_of_byte. assert (Hlt : (lb + 1 <? 128)%N = true) by (apply N.ltb_lt; lia).
+        rewrite Hlt. unfold byte_str. cbn [fst append chars_of_bytes class_items].
+        unfold mk_char, class_item, escape_rune. rewrite !rune_of_byte. fold lb hb.
+        rewrite N_ascii_embedding by lia. cbn [option_map]. eexists. split; [reflexivity|].
+        intros fold r. cbn [existsb]. rewrite orb_false_r, orb_assoc. replace hb with (lb + 2)%N by lia.
+        symmetry. apply in_item_range3.
+Qed.
+
+Lemma items_sound items : forall cis, forallb item_ok items = true -> class_items items = Some cis ->
+  exists cis', class_items (fst (wlT items)) = Some cis' /\
+               forall fold r, existsb (in_item fold r) cis' = existsb (in_item fold r) cis.
+Proof.
+  induction items as [|it items IH]; intros cis Hok Hci.
+  - simpl in Hci. inversion Hci. exists []. split; reflexivity.
+  - cbn [forallb] in Hok. apply andb_true_iff in Hok as [Hok1 Hok].
+    cbn [class_items] in Hci. destruct (class_item it) as [ci|] eqn:E1; [|discriminate].
+    destruct (class_items items) as [cr|] eqn:E2; [|discriminate]. inversion Hci; subst cis.
+    destruct (item_sound it ci Hok1 E1) as (c1 & Hc1 & Hs1).
+    destruct (IH cr Hok eq_refl) as (c2 & Hc2 & Hs2).
+    cbn [wlT]. unfold a_app. cbn [fst]. rewrite class_items_app, Hc1, Hc2. eexists. split; [reflexivity|].
+    intros fold r. rewrite existsb_app, Hs1, Hs2. reflexivity.
+Qed.
+
+Lemma class_general neg o v items x :
+  (o = OpCharClass /\ neg = false \/ o = OpNegCharClass /\ neg = true) ->
+  forallb item_ok items = true -> sden (X o v items) = Some x ->
+  exists y, sden (X o v (fst (wlT items))) = Some y /\ y ≈ x.
+Proof.
+  intros Ho Hok Hs.
+  assert (E : forall its, sden (X o v its) =
+              option_map (fun cs => RSet {| c_neg := neg; c_fold := false; c_items := cs |}) (class_items its)).
+  { intros its. destruct Ho as [[-> ->]|[-> ->]]; unfold sden; cbn [sdeng leaf_op den];
+      destruct (class_items its); reflexivity. }
+  rewrite E in Hs. destruct (class_items items) as [cis|] eqn:Eci; [|discriminate]. cbn [option_map] in Hs.
+  inversion Hs; subst x. destruct (items_sound items cis Hok Eci) as (cis' & Hc' & Hsame).
+  rewrite E, Hc'. cbn [option_map]. eexists. split; [reflexivity|].
+  apply rset_ext. intros r. unfold in_cls. cbn [c_neg c_fold c_items]. rewrite Hsame. reflexivity.
+Qed.
+
 Lemma quant_node_of g q x : is_quant (sx_op q) = true -> sdeng g q = Some x -> quant_node q = true.
 Proof.
   destruct q as [o v a]. intros Hq Hs. destruct o; try discriminate Hq.
@@ -758,15 +881,17 @@ Proof.
              - exfalso. unfold sden in Hs. cbn [sdeng leaf_op den class_items] in Hs. unfold class_item in Hs.
                rewrite Ep, Ee in Hs. discriminate Hs. }
            exists [x]. split; [|apply req_refl]. cbn [omap]. rewrite E, Hs. reflexivity.
-    + unfold class_unchanged in Hg. destruct (fst (walk_a true (X OpCharClass v args))) as [|e' [|? ?]]; try discriminate Hg.
-      apply sx_eqb_eq in Hg. subst e'. exists [x]. split; [cbn [omap]; rewrite Hs; reflexivity|apply req_refl].
+    + unfold items_ok in Hg. cbn [sx_args] in Hg.
+      destruct (class_general false OpCharClass v args x (or_introl (conj eq_refl eq_refl)) Hg Hs) as (y & Hy & Hreq).
+      rewrite (walk_a_class v args Es). cbn [omap]. rewrite Hy. exists [y]. split; [reflexivity|exact Hreq].
   - (* NegCharClass *)
     cbn [guards] in Hg. destruct (simplifyNegCharClass (X OpNegCharClass v args)) as [s|] eqn:Es.
     + apply existsb_exists in Hg as (p & Hin & Heq). apply sx_eqb_eq in Heq.
       unfold neg_class_table_sound_entries in Hin. cbn [In] in Hin.
       repeat (destruct Hin as [<-|Hin]; [cbn [fst] in Heq; inversion Heq; subst; table_case Hs|]). destruct Hin.
-    + unfold class_unchanged in Hg. destruct (fst (walk_a true (X OpNegCharClass v args))) as [|e' [|? ?]]; try discriminate Hg.
-      apply sx_eqb_eq in Hg. subst e'. exists [x]. split; [cbn [omap]; rewrite Hs; reflexivity|apply req_refl].
+    + unfold items_ok in Hg. cbn [sx_args] in Hg.
+      destruct (class_general true OpNegCharClass v args x (or_intror (conj eq_refl eq_refl)) Hg Hs) as (y & Hy & Hreq).
+      rewrite (walk_a_negclass v args Es). cbn [omap]. rewrite Hy. exists [y]. split; [reflexivity|exact Hreq].
   - (* Repeat *)
     destruct args as [|y [|r [|? ?]]]; try (simpl in Hs; discriminate Hs).
     pose proof (quant_step (X OpRepeat v [y; r]) eq_refl IHin Hg true x Hs) as Q.
